@@ -43,9 +43,13 @@ Watchdog::Watchdog(long csecs,
     throw std::invalid_argument("Watchdog constructor called with a"
                                 " non-positive number of centiseconds");
   }
+  PPL_VERIF_YIELD(1)
   in_critical_section = true;
+  PPL_VERIF_YIELD(2)
   pending_position = new_watchdog_event(csecs, handler, expired);
+  PPL_VERIF_YIELD(3)
   in_critical_section = false;
+  PPL_VERIF_YIELD(4)
 }
 
 inline
@@ -56,18 +60,26 @@ Watchdog::Watchdog(long csecs, void (* const function)())
     throw std::invalid_argument("Watchdog constructor called with a"
                                 " non-positive number of centiseconds");
   }
+  PPL_VERIF_YIELD(1)
   in_critical_section = true;
+  PPL_VERIF_YIELD(2)
   pending_position = new_watchdog_event(csecs, handler, expired);
+  PPL_VERIF_YIELD(3)
   in_critical_section = false;
+  PPL_VERIF_YIELD(4)
 }
 
 inline
 Watchdog::~Watchdog() {
   if (!expired) {
+    PPL_VERIF_YIELD(10)
     in_critical_section = true;
+    PPL_VERIF_YIELD(11)
     remove_watchdog_event(pending_position);
+    PPL_VERIF_YIELD(12)
     in_critical_section = false;
   }
+  PPL_VERIF_YIELD(13)
   delete &handler;
 }
 
